@@ -139,6 +139,10 @@ func TestVerifC20(t *testing.T) {
 	// between them (a deadlock, found by this workload) is repaired in /repo; should the node block
 	// again, the watchdog below dumps the goroutines and the run is inconclusive.
 	withGline := true
+	if seed%4 == 0 {
+		// a restore round whose snapshot holds no ban at all (the state is rebuilt with an empty ban table)
+		withGline = false
+	}
 	pages := []string{"/status", "/status/getmessage", "/status/sessions", "/status/irclog", "/status/state", "/config", "/metrics", "/leader", "/irclog?sessionid=" + sessions[0].Id}
 	// the two pages that read the node's log copy stop shortly before a Restore: a handler that
 	// reads the store Restore closes panics and takes the node down (outside every property,
